@@ -323,6 +323,18 @@ class Builder:
             cand = f"{rhost}/{short}"
             if cand not in [r["type"] for r in self.resources]:
                 rtype = cand
+        if self.p.get("rich_patterns"):
+            shape = self.d(st.integers(0, 6))
+            if shape == 0:
+                pats = [f"{coll}/{{{var}=**}}"]
+            elif shape == 1:
+                pats = [f"projects/{{project}}/{coll}/{{{var}=**}}"]
+            elif shape == 2:
+                pats = [f"{coll}/{{{var}}}-{{{var}_region}}"]
+            elif shape == 3:
+                pats = [f"projects/{{project}}/{coll}/{{{var}}}.{{{var}_zone}}/settings"]
+            elif shape == 4:
+                pats = [f"{coll}/{{{var}}}~{{{var}_part}}_{{{var}_piece}}"]
         m["resource"] = {"type": rtype, "patterns": pats}
         if not any(f["name"] == "name" for f in m["fields"]):
             m["fields"].append({"name": "name", "number": _free_number(m["fields"]), "type": "string"})
@@ -726,6 +738,17 @@ class Builder:
                         svc["comment"] = c
                     file["services"].append(svc)
             api["files"].append(file)
+        if self.p.get("file_level_resources"):
+            # file-level resource definitions, referenced from request fields
+            f0 = api["files"][-1]
+            defs = []
+            for i in range(self.d(st.integers(0, 2))):
+                t = f"{host}/" + ["Warehouse", "Depot"][i]
+                pat = [f"warehouses/{{warehouse}}", f"projects/{{project}}/depots/{{depot=**}}"][i]
+                defs.append({"type": t, "patterns": [pat]})
+                self.resources.append({"type": t, "patterns": [pat], "msg_full": None})
+            if defs:
+                f0["resource_definitions"] = defs
         # resource references on string fields (after all resources are known)
         if self.resources:
             for f in api["files"]:
